@@ -306,6 +306,13 @@ def _is_none(x):
     return isinstance(x, ast.Constant) and x.value is None
 
 
+def _given(gs, name):
+    """``<name> is not None`` holds (0 is a valid threshold / sweep count, so
+    a truth-value test of the criterion does not count)."""
+    return _fact(gs, lambda l: isinstance(l, ast.Name) and l.id == name,
+                 ast.IsNot, _is_none)
+
+
 def _stop_is_none(gs):
     return _fact(gs, lambda l: _is_sub(l, 'info', 'stop'), ast.Is, _is_none)
 
@@ -323,7 +330,7 @@ def _thr_guard_ok(mod, gs, key):
               isinstance(t.func, ast.Attribute) and t.func.attr == 'isinf'
               and t.args and is_val(t.args[0])
               for t, pol in guard_atoms(gs))
-    return _stop_is_none(gs) and le and ge and fin
+    return _stop_is_none(gs) and le and ge and fin and _given(gs, key)
 
 
 def check_stop_writers(prog, rep, functions=None):
@@ -430,8 +437,9 @@ def _stop_guard(mod, fn, st, v, gs, pred, lit):
     if pred == 'nswp':
         ge = _fact(gs, lambda l: _is_sub(l, 'info', 'nswp'), ast.GtE,
                    lambda r: isinstance(r, ast.Name) and r.id == 'nswp')
-        return _stop_is_none(gs) and ge, 'under  info["stop"] is None and ' \
-            'info["nswp"] >= nswp'
+        return _stop_is_none(gs) and ge and _given(gs, 'nswp'), \
+            'under  info["stop"] is None, nswp is not None (0 is a valid ' \
+            'sweep count) and info["nswp"] >= nswp'
     return False, 'unknown predicate'
 
 
